@@ -13,7 +13,20 @@
   failing validator does not depend on why it failed.
 
   A class is a list of fields `(key, kind, validators)`; kinds: scalar leaves (int64, string, optional<int64>,
-  vector<int64>), a nested flat class, a vector of flat classes, a string-keyed map of flat classes.
+  vector<int64>, a REGISTERED ENUM loaded by name), a nested flat class, a vector of flat classes, a string-keyed map of
+  flat classes.
+
+  The enum leaf: serialization_base_types.h `Serialize(archive, key, TValue& /*enum*/)` (loading branch) reads a string
+  view under the key and returns `Detail::ConvertByPolicy(view, value, …)`; archive_base.h `ConvertByPolicy` assigns
+  `Convert::To<TEnum>(view)` and returns true, or catches the `std::invalid_argument` of convert_enum.h `To(view, out)`
+  (name not in the registry) and — under MismatchedTypesPolicy::Skip — returns false leaving the target untouched (under
+  ThrowError it throws SerializationException(MismatchedTypes)). convert_enum.h `EnumRegistry::GetEnumMetadata(name)` is
+  the table scan `findEnum`: first entry of the same size whose characters agree position by position after
+  `std::tolower`. The table is the one registered by harness/valid_enum.h (`enumNames`, tied to what the library's registry
+  holds by `Props.C17.enum_table_matches_code`).
+
+  MismatchedTypesPolicy::ThrowError (`val.loadt`, second part of this file): the first mismatched value met by the load
+  throws SerializationException(MismatchedTypes) and the load is abandoned there.
   The document is the token tree of `Scope.Spec` (`Val`): an object is a list of (key, value) entries.
 
   Control flow: an exception thrown by `AddValidationError` leaves every loop at once, and nothing a
@@ -88,10 +101,12 @@ def runEvents (cap : Nat) : ErrMap → List (String × String) → Except ErrMap
 
 inductive Leaf where
   | int | str | optInt | vecInt
+  | enm                      -- a registered enum (harness: ValTone), loaded by name
   deriving Repr, DecidableEq
 
 inductive LeafVal where
   | int (v : Int) | str (s : List Nat) | opt (o : Option Int) | vec (l : List Int)
+  | enm (idx : Nat)          -- index into `enumNames` = underlying value of the enumerator
   deriving Repr, DecidableEq
 
 structure LeafField where
@@ -129,6 +144,33 @@ def intOr0 : Val → Int
   | .sc (.int v) => v
   | _ => 0
 
+/-! ### the registered enum -/
+
+/-- the names registered for the enum of the ops (harness/valid_enum.h: ValTone { Low, Mid, High }), in registration
+    order; the underlying value of an enumerator is its index -/
+def enumNames : List (List Nat) := [[76, 111, 119], [77, 105, 100], [72, 105, 103, 104]]
+
+/-- the member's initial value (`ValTone e = Mid`): what the field holds when nothing is loaded into it -/
+def enumInitial : Nat := 1
+
+/-- `std::tolower` in the "C" locale on a byte -/
+def toLowerC (c : Nat) : Nat := if 65 ≤ c ∧ c ≤ 90 then c + 32 else c
+
+/-- the inner loop of `GetEnumMetadata(name)`: position by position, stop at the first difference (sizes are equal) -/
+def charsMatch : List Nat → List Nat → Bool
+  | [], _ => true
+  | _ :: _, [] => true                       -- not reached: the sizes were compared before
+  | a :: as, b :: bs => if toLowerC a != toLowerC b then false else charsMatch as bs
+
+/-- `EnumRegistry::GetEnumMetadata(string_view)`: first entry with `Name.size() == name.size()` and matching characters;
+    the answer is the position in the table -/
+def findEnum : List (List Nat) → Nat → List Nat → Option Nat
+  | [], _, _ => none
+  | r :: rs, i, name =>
+    if r.length == name.length then
+      if charsMatch r name then some i else findEnum rs (i + 1) name
+    else findEnum rs (i + 1) name
+
 /-- `Serialize(scope, key, member)` for the leaf kinds under MismatchedTypesPolicy::Skip into a fresh member:
     `(result, member value)` -/
 def loadLeaf : Leaf → Option Val → Bool × LeafVal
@@ -140,12 +182,18 @@ def loadLeaf : Leaf → Option Val → Bool × LeafVal
   | .optInt, _ => (false, .opt none)
   | .vecInt, some (.arr items) => (true, .vec (items.map intOr0))
   | .vecInt, _ => (false, .vec [])
+  | .enm, some (.sc (.str s)) =>
+    match findEnum enumNames 0 s with
+    | some i => (true, .enm i)                 -- ConvertByPolicy: target = Convert::To<TEnum>(view); return true
+    | none => (false, .enm enumInitial)        -- invalid_argument caught, policy Skip: return false, target untouched
+  | .enm, _ => (false, .enm enumInitial)       -- no string under the key (absent, nil, another type: skipped by the archive)
 
 def seenLeaf : LeafVal → Seen
   | .int v => ⟨v, 0⟩
   | .str s => ⟨0, s.length⟩
   | .opt _ => ⟨0, 0⟩
   | .vec l => ⟨0, l.length⟩
+  | .enm i => ⟨i, 0⟩
 
 def defaultFlat (fields : List LeafField) : FlatVal := fields.map fun f => (loadLeaf f.kind none).2
 
@@ -221,5 +269,113 @@ def loadClass (cap : Nat) (cls : List Field) (doc : Val) : Outcome :=
     | .error m => .validation m none
     | .ok m => if m.isEmpty then .ok r.1 else .validation m (some r.1)
   | _ => .ok (cls.map fun f => (loadField f none).2.1)
+
+/-! ### MismatchedTypesPolicy::ThrowError (`val.loadt`)
+
+  The policy is consulted only where a value cannot be loaded into its target: under ThrowError the archive (or
+  `ConvertByPolicy`, for an enum name that is not registered) throws SerializationException(MismatchedTypes) instead of
+  answering "not loaded". Nil is never a mismatch (the reader answers "not loaded" before it looks at the policy), neither
+  is an absent key. The exception leaves the load at once — the validators of the field being loaded are not called, the
+  errors collected so far are dropped with the context. So the load is modelled by the trace UP TO the first mismatched
+  value (`…Cut`, second component: was a mismatch met); a load that meets no mismatch is the Skip load. -/
+
+def notNil : Val → Bool
+  | .sc .nil => false
+  | _ => true
+
+/-- does `Serialize(scope, key, member)` of a leaf throw MismatchedTypes under ThrowError -/
+def leafThrows : Leaf → Option Val → Bool
+  | _, none => false
+  | .vecInt, some (.arr items) =>        -- each element is read as int64: nil leaves the element alone
+    items.any fun it => match it with
+      | .sc (.int _) => false
+      | .sc .nil => false
+      | _ => true
+  | k, some v => notNil v && !(loadLeaf k (some v)).1
+
+def flatCut (pfx : String) : List LeafField → List (Val × Val) → List (String × String) × Bool
+  | [], _ => ([], false)
+  | f :: fs, entries =>
+    let v := lookup entries f.key
+    if leafThrows f.kind v then ([], true)
+    else
+      let r := loadLeaf f.kind v
+      let rest := flatCut pfx fs entries
+      (visitArgs (pfx ++ "/" ++ f.key) f.validators (seenLeaf r.2) r.1 ++ rest.1, rest.2)
+
+def vecCut (pfx : String) (fields : List LeafField) : Nat → List Val → List (String × String) × Bool
+  | _, [] => ([], false)
+  | j, it :: its =>
+    match it with
+    | .map es =>
+      let c := flatCut (pfx ++ "/" ++ toString (j + 1)) fields es
+      if c.2 then c
+      else
+        let rest := vecCut pfx fields (j + 1) its
+        (c.1 ++ rest.1, rest.2)
+    | .sc .nil => vecCut pfx fields (j + 1) its
+    | _ => ([], true)
+
+def mapCut (pfx : String) (fields : List LeafField) : List (Val × Val) → List (String × String) × Bool
+  | [] => ([], false)
+  | e :: es =>
+    match e.1 with
+    | .sc (.str k) =>
+      match e.2 with
+      | .map es' =>
+        let c := flatCut (pfx ++ "/" ++ keyString k) fields es'
+        if c.2 then c
+        else
+          let rest := mapCut pfx fields es
+          (c.1 ++ rest.1, rest.2)
+      | .sc .nil => mapCut pfx fields es
+      | _ => ([], true)
+    | _ => mapCut pfx fields es          -- keys that are not strings: outside the documents the ops generate
+
+def strKeyCount (es : List (Val × Val)) : Nat :=
+  (es.filter fun e => match e.1 with | .sc (.str _) => true | _ => false).length
+
+/-- one field of the root class: the trace up to the first mismatch inside it, the field's own validators last -/
+def fieldCut (f : Field) (v : Option Val) : List (String × String) × Bool :=
+  let p := "/" ++ f.key
+  let own (c : List (String × String) × Bool) (seen : Seen) (loaded : Bool) : List (String × String) × Bool :=
+    if c.2 then c else (c.1 ++ visitArgs p f.validators seen loaded, false)
+  match f.kind, v with
+  | .leaf k, v =>
+    if leafThrows k v then ([], true)
+    else let r := loadLeaf k v; own ([], false) (seenLeaf r.2) r.1
+  | .obj fields, some (.map es) => own (flatCut p fields es) ⟨0, 0⟩ true
+  | .vecObj fields, some (.arr items) => own (vecCut p fields 0 items) ⟨0, items.length⟩ true
+  | .mapObj fields, some (.map es) => own (mapCut p fields es) ⟨0, strKeyCount es⟩ true
+  | _, none => own ([], false) ⟨0, 0⟩ false
+  | _, some v => if notNil v then ([], true) else own ([], false) ⟨0, 0⟩ false
+
+def rootCut : List Field → List (Val × Val) → List (String × String) × Bool
+  | [], _ => ([], false)
+  | f :: fs, es =>
+    let c := fieldCut f (lookup es f.key)
+    if c.2 then c
+    else
+      let rest := rootCut fs es
+      (c.1 ++ rest.1, rest.2)
+
+inductive OutcomeT where
+  | done (o : Outcome)          -- no SerializationException: what `loadClass` describes
+  | mismatched                  -- SerializationException(MismatchedTypes)
+  deriving DecidableEq
+
+/-- `LoadObject` under ThrowError. A mismatch is met: the validation errors reported before it may already have reached
+    the cap (ValidationException from `AddValidationError`), otherwise MismatchedTypes. No mismatch: the Skip load. -/
+def loadClassT (cap : Nat) (cls : List Field) (doc : Val) : OutcomeT :=
+  match doc with
+  | .map es =>
+    let c := rootCut cls es
+    if c.2 then
+      match runEvents cap [] c.1 with
+      | .error m => .done (.validation m none)
+      | .ok _ => .mismatched
+    else .done (loadClass cap cls doc)
+  | .sc .nil => .done (loadClass cap cls doc)
+  | _ => .mismatched
 
 end BSVerif.Valid
